@@ -4,7 +4,7 @@ CFG = {
     "harness": ["v1", "v2"],
     "pcheck": ["C07.run"],
     "functional": ["C07.ops"],
-    "required_classes": ["path-ending-in-init", "package-less-name-with-named-output-package", "exhaustive", "random", "keyword-leaf", "digit-leaf", "punct-only-leaf", "nonident-char", "local-added",
+    "required_classes": ["more-than-nine-packages-with-one-name", "path-ending-in-init", "package-less-name-with-named-output-package", "exhaustive", "random", "keyword-leaf", "digit-leaf", "punct-only-leaf", "nonident-char", "local-added",
                          "local-leaf-shared", "shared-leaf", "numbered-vs-local-leaf", "tracker-options", "name-with-path", "name-with-path-again", "invalid-type", "non-ascii-paths"],
     "nontrivial": lambda c: c["input"].count("<") > 3,
     "rule": "add-sequences over a path alphabet built to collide (keyword leaves, paths differing only in . - _, shared leaves at several depths, joined suffixes that coincide (a/b vs ab), digit-leading and punctuation-only elements, '~' and '+', the output package itself and packages sharing its leaf); after every AddSymbol the harness dumps LocalNameOf of every path of the case, PathOf of every alias and ImportLines; non-trivial = at least two adds; distinct = distinct (entry,input)",
